@@ -1,11 +1,17 @@
 ---------------------------- MODULE Trace_Catalog ----------------------------
 (* code -> spec for C19: the live catalogue (event "Catalog") is judged by     *)
-(* Catalog!Violations.                                                          *)
+(* Catalog!Violations.  Event "Dial": the control ports a client object of one   *)
+(* API class (for protocol type 1 or 2) tried over a history of connects -        *)
+(* accepted, refused, after a disconnect - must all be the port of its protocol  *)
+(* type (the port tables are worth what the clients do with them).               *)
 EXTENDS Catalog, TraceKit
 VARIABLES i, bad, dropped, tags
 Judge(e) ==
   IF e.ev = "Catalog"
   THEN [why |-> SetToSeq(Violations(e.c)), tag |-> "catalog"]
+  ELSE IF e.ev = "Dial"
+  THEN [why |-> Clause(\A k \in 1..Len(e.ports) : e.ports[k] = TcpOf(e.api), "C19:control-port-dialled"),     \* (how often it dials is its own business)
+        tag |-> "dial-type" \o ToString(e.api)]
   ELSE [why |-> <<"unknown-event">>, tag |-> "unknown"]
 Init == i = 1 /\ bad = <<>> /\ dropped = 0 /\ tags = <<>>
 Next ==
